@@ -228,6 +228,22 @@ def r3(ctx):
             yield VIOL("C09-R3", "wrapper/" + fn, "%s calls normalize_uri_element with UriElement::%s" % (fn, v), where=loc(w.j["span"]))
         else:
             yield PASS("C09-R3", "wrapper/" + fn, "normalize_uri_element(arg, UriElement::%s)" % var, [loc(w.j["span"])])
+        # the wrapper is thin: its only result is that call's, applied to the whole argument (a "fast path" that returns
+        # the element unchanged keeps non-canonical spellings such as %7E or %41)
+        d0 = [d for d in w.defs().get(0, []) if d["kind"] != "mutcall"]
+        arg_od = w.origin_def(c[1]["args"][0])
+        thin = len(d0) == 1 and d0[0]["kind"] == "call" and d0[0]["block"] == c[0] and arg_od == ("param", 1)
+        if not thin:
+            # `let r = normalize_uri_element(..); r` / `Ok(normalize_uri_element(..)?)` are the same function
+            rs = w.slice([0])
+            others = [x for x in result_aggs(w, "Ok") if not w.slice_op(x[2]["rv"]["ops"][0]).has_call(r"canonical::normalize_uri_element$")]
+            thin = arg_od == ("param", 1) and not others and all(d["kind"] in ("call", "assign") and (w.slice([0]).has_call(r"canonical::normalize_uri_element$")) for d in d0) and \
+                all((d["kind"] == "call" and re.search(r"normalize_uri_element$|FromResidual::from_residual$", d["term"]["callee"])) or (d["kind"] == "assign" and d["stmt"]["rv"]["k"] in ("use", "aggregate")) for d in d0) and \
+                not [cn for cn in rs.callee_names() if not re.search(r"normalize_uri_element$|Try::branch$|FromResidual::from_residual$", cn)]
+        if not thin:
+            yield VIOL("C09-R3", "wrapper-thin/" + fn, "%s does more than forward to normalize_uri_element (another result source or a transformed argument): some spellings bypass or alter the normalisation" % fn, where=loc(w.j["span"]))
+        else:
+            yield PASS("C09-R3", "wrapper-thin/" + fn, "returns normalize_uri_element(whole argument, ..) and nothing else", [loc(w.j["span"])])
 
 
 @M.rule("C09-R4", "mode split and dot-segment tests in canonicalize_uri_path")
